@@ -1,0 +1,115 @@
+//go:build verif
+
+package server
+
+import (
+	"bytes"
+	"fmt"
+	"math/rand"
+	"os"
+	"runtime"
+	"strconv"
+	"strings"
+	"sync"
+	"time"
+)
+
+// Instrumentation for the runtime monitors (build tag `verif` only).
+//
+// verifPoint(name) appends one line "<unix nanos> <goroutine id> <name>" to the
+// file named by VERIF_EVENTLOG and then sleeps for the delay configured for
+// `name` in VERIF_DELAYS ("point=ms[:jitter_ms],point=..."). The jitter PRNG is
+// seeded from VERIF_SEED. With neither variable set it does nothing.
+// VerifConfigure lets an in-process harness change the configuration.
+
+type verifDelay struct {
+	base, jitter time.Duration
+}
+
+var verifState struct {
+	sync.Mutex
+	loaded bool
+	log    *os.File
+	delays map[string]verifDelay
+	rng    *rand.Rand
+}
+
+func verifLoadLocked(eventlog, delays string, seed int64) {
+	if verifState.log != nil {
+		verifState.log.Close()
+		verifState.log = nil
+	}
+	if eventlog != "" {
+		f, err := os.OpenFile(eventlog, os.O_APPEND|os.O_CREATE|os.O_WRONLY, 0o644)
+		if err == nil {
+			verifState.log = f
+		}
+	}
+	verifState.delays = map[string]verifDelay{}
+	for _, item := range strings.Split(delays, ",") {
+		kv := strings.SplitN(strings.TrimSpace(item), "=", 2)
+		if len(kv) != 2 {
+			continue
+		}
+		parts := strings.SplitN(kv[1], ":", 2)
+		base, err := strconv.Atoi(parts[0])
+		if err != nil {
+			continue
+		}
+		d := verifDelay{base: time.Duration(base) * time.Millisecond}
+		if len(parts) == 2 {
+			if j, err := strconv.Atoi(parts[1]); err == nil {
+				d.jitter = time.Duration(j) * time.Millisecond
+			}
+		}
+		verifState.delays[kv[0]] = d
+	}
+	verifState.rng = rand.New(rand.NewSource(seed))
+	verifState.loaded = true
+}
+
+// VerifConfigure replaces the hook configuration (in-process harnesses).
+func VerifConfigure(eventlog, delays string, seed int64) {
+	verifState.Lock()
+	defer verifState.Unlock()
+	verifLoadLocked(eventlog, delays, seed)
+}
+
+func verifGoroutineID() string {
+	var buf [64]byte
+	n := runtime.Stack(buf[:], false)
+	fields := bytes.Fields(buf[:n])
+	if len(fields) >= 2 {
+		return string(fields[1])
+	}
+	return "?"
+}
+
+func verifPoint(name string) {
+	verifState.Lock()
+	if !verifState.loaded {
+		seed, _ := strconv.ParseInt(os.Getenv("VERIF_SEED"), 10, 64)
+		verifLoadLocked(os.Getenv("VERIF_EVENTLOG"), os.Getenv("VERIF_DELAYS"), seed)
+	}
+	if verifState.log != nil {
+		fmt.Fprintf(verifState.log, "%d %s %s\n", time.Now().UnixNano(), verifGoroutineID(), name)
+	}
+	var sleep time.Duration
+	if d, ok := verifState.delays[name]; ok {
+		sleep = d.base
+		if d.jitter > 0 {
+			sleep += time.Duration(verifState.rng.Int63n(int64(d.jitter) + 1))
+		}
+	}
+	verifState.Unlock()
+	if sleep > 0 {
+		time.Sleep(sleep)
+	}
+}
+
+func verifWrapStart(start func()) func() {
+	return func() {
+		verifPoint("job.beforeStart")
+		start()
+	}
+}
